@@ -139,7 +139,13 @@ func (sg *Getter) GetSamples(
 				if samples[i].IsEmpty() {
 					return errors.New("nil response")
 				}
-				return samples[i].Verify(header.DAH, request.RowIndex, request.ShareIndex)
+				if err := samples[i].Verify(header.DAH, request.RowIndex, request.ShareIndex); err != nil {
+					// the samples slice is handed back to the caller even on failure:
+					// data that failed verification must not stay in it
+					samples[i] = shwap.Sample{}
+					return err
+				}
+				return nil
 			}
 			return sg.executeRequest(ctx, logger, header, request.Name(), req, verify)
 		})
